@@ -618,6 +618,9 @@ impl<'a> Runner<'a> {
         }
         AbortKind::Other => { self.harness_error = Some(format!("unexpected panic outside the repository: {}", abort.info.short())); }
       }
+      // What the aborted build wrote has changed: it belongs to the next report to a bottom-up build ("every resource
+      // that changed"), like the writes of a partial top-down session.
+      for e in slice.iter() { if let Ev::ResSet { res, .. } = e { if let Some(i) = prog.res_index(*res) { self.changed.insert(i); } } }
       // After an abort the real world is the truth.
       self.shadow = real;
       self.all_consistent = false;
@@ -911,6 +914,7 @@ impl<'a> Runner<'a> {
       AbortKind::Overlap => i.is_overlap(),
       _ => false,
     });
+    if std::env::var("VERIF_DEBUG_JUDGE").is_ok() { eprintln!("JUDGE kind={:?} all={:?} world_now={:?} before={:?} ill_now={:?} ill_rev={:?} ill_b={:?} ill_brev={:?} order_now={:?}", abort.kind, all, world_now, before, clean.ill, clean_rev.ill, clean_b.ill, clean_b_rev.ill, clean.order); }
     if exists_now { self.stats.hit("abort_for_existing_violation"); return; }
     let props: Vec<&str> = if self.aborted_earlier { vec!["C19", "C20"] } else { vec!["C20"] };
     let Some((t, op, target)) = an.open_op else {
@@ -1475,7 +1479,9 @@ impl<'a> Runner<'a> {
       let none_old: Vec<Option<ExecRec>> = vec![None; ntasks];
       for r in prog.resources.iter() {
         let writers: Vec<Tid> = (0..ntasks).filter(|x| self.ledger[*x].as_ref().map(|e| e.deps.iter().any(|d| d.kind == DepKind::Write && d.target == Target::Res(*r))).unwrap_or(false)).collect();
-        let fresh = |x: &Tid| executed.contains(x) || validated_ok.contains(x) || bu_reused.contains(x);
+        // (only what this build itself executed or validated: what earlier builds of the session established may
+        // since have lost its path through the truncated record of an aborted task)
+        let fresh = |x: &Tid| executed.contains(x) || (validated_ok.contains(x) && !carry.validated.contains(x)) || bu_reused.contains(x);
         if writers.len() > 1 && writers.iter().any(|w| fresh(w)) { violations.push(Violation::new(&["C06"], "two-writers-after-build", step, format!("after the build returned, tasks {:?} are all recorded as writers of {:?}", writers, r))); }
         if let Some(w) = writers.first() {
           for x in (0..ntasks).filter(|x| x != w && fresh(x) && self.ledger[*x].as_ref().map(|e| e.deps.iter().any(|d| d.kind == DepKind::Read && d.target == Target::Res(*r))).unwrap_or(false)) {
